@@ -784,6 +784,11 @@ def run(pid, tier, replay=None):
                     else:
                         res, m = rt.step()
                         lab.append(["block", res])
+                if run_.events and i % 2 == 0:
+                    # the node process dies and comes up again on its store: for the new process the blocks arrive in the order the store
+                    # returns them, and its head is the first of the greatest height among them
+                    run_.restart()
+                    lab.append(["restart"])
                 if run_.events:
                     ntraces.append(dict(run_.trace(), all_valid=True))      # p_mut = 0: every offered block is fully valid on an arrived parent
                     nlabels.append(lab)
@@ -921,6 +926,10 @@ def run(pid, tier, replay=None):
         rc_ = minedblocks.stage(chk, quick, rng, pid)
         if rc_:
             return rc_
+        from checks import wireforms
+        rc_ = wireforms.stage(chk, quick, rng, pid)
+        if rc_:
+            return rc_
     if pid in ("C01", "C02", "C05"):
         # ---- the verdict of full validation is a function of (block, chain, clock) -- also while the miner's thread assembles a candidate
         #      from the same chain state and a pending transaction (Interfere.tla; preemption-point exploration on real threads)
@@ -1010,7 +1019,8 @@ def run(pid, tier, replay=None):
             g3 = w3.make_genesis(ts=5000)
             run_ = node_drv.NodeRun(w3, g3, peers=nodechk.PEERS, tid=900000 + i, clock0=5000)
             try:
-                nrec = nodechk.NodeRec(run_, rng, fetch_p=0.5)
+                nrec = nodechk.NodeRec(run_, rng, fetch_p=0.5 if i % 2 else 0.0)
+                nrec.advertise_p = 0.0 if i % 2 else 0.6
                 rt = RandomTree(w3, nrec, rng, nkeys=3, p_mut=0.4)
                 lab = []
                 for k in range(14 if quick else 28):
